@@ -70,6 +70,9 @@ class Lock:
         self.f.close()
 
 
+TRANSLATOR_FAILURES = []
+
+
 class TieBroken(Exception):
     """The model can no longer be tied to the source (translator / build / protocol failure)."""
 
@@ -115,6 +118,13 @@ def regen(name, args):
         os.remove(tmp)
     rc, out, _ = sh([BWH] + args + [tmp], cwd=ROOT, env=go_env(), timeout=600)
     if rc != 0 or not os.path.exists(tmp):
+        dst = os.path.join(GEN, name)
+        if os.path.exists(dst):
+            # The source has a shape the translator cannot interpret: the tie is broken. The facts of the last
+            # successful translation stay in place so that the correspondence can still run and look for a
+            # concrete failing input; without one the check ends with no-failing-input-found and this message.
+            TRANSLATOR_FAILURES.append((f"translator `bwh {' '.join(args)}` failed: the source has a shape it cannot interpret", out[-4000:]))
+            return False, hashlib.sha256(open(dst, "rb").read()).hexdigest()
         raise TieBroken(f"translator `bwh {' '.join(args)}` failed: the source has a shape it cannot interpret", out[-4000:])
     new = open(tmp, "rb").read()
     dst = os.path.join(GEN, name)
